@@ -278,12 +278,11 @@ def execute(scn):
             post = snapshot.snapshot(ws)
             base = dict(run=run_idx, driver=step['driver'],
                         simple=scn['simple'], **feats)
-            for rule, d in accept(u, tables):
-                viols.append(violation(rule, fault=None, status=u.status,
-                                       **dict(base, **d)))
-            for rule, d in payload_truth(u, pre, post, P, cur_v):
-                viols.append(violation(rule, fault=None, status=u.status,
-                                       **dict(base, **d)))
+            for rule, d in accept(u, tables) + payload_truth(
+                    u, pre, post, P, cur_v):
+                det = dict(base, fault=None, status=u.status)
+                det.update(d)
+                viols.append(violation(rule, **det))
             if not u.writes():
                 stats['nothing_to_do_runs'] = stats.get(
                     'nothing_to_do_runs', 0) + 1
@@ -303,10 +302,11 @@ def execute(scn):
                 stats['fired_sql_error_' + scope] = stats.get(
                     'fired_sql_error_' + scope, 0) + 1
                 for rule, d in accept(f, tables):
-                    viols.append(violation(
-                        rule, fault='sql_error', k=k, scope=scope,
-                        phase=c07._phase(f), statement=inj['sql'][:100],
-                        status=f.status, **dict(base, **d)))
+                    det = dict(base, fault='sql_error', k=k, scope=scope,
+                               phase=c07._phase(f),
+                               statement=inj['sql'][:100], status=f.status)
+                    det.update(d)
+                    viols.append(violation(rule, **det))
                 if f.status == 'ok':
                     viols.append(violation(
                         'C17.failure_swallowed', fault='sql_error', k=k,
